@@ -55,6 +55,10 @@ def rand_model(rng, ngram, alphabet, max_len):
     for length in range(ngram, max_len + 1):
         if dense or rng.random() < 0.8:
             g['ln'][rng.choice(LEVELS)].append(length - n1)
+    # dead-end prefixes (no transition at all), also ones that are listed before a completable letter on the same level
+    if not dense and rng.random() < 0.5:
+        for p in rng.sample(prefixes, max(1, len(prefixes) // 4)):
+            g['cp'].pop(p, None)
     # a trained model always has at least one initial n-gram and one length (the constructor refuses a model without)
     if not any(g['ip'].values()):
         g['ip'][rng.choice(LEVELS)].append(rng.choice(prefixes))
@@ -103,10 +107,10 @@ def run_level(MarkovCracker, g, level, opt, limit=200000):
 
 
 def chk_enum(MarkovCracker, Optimizer, rng, tier):
-    for mi in range(40 if tier == 'quick' else 300):
-        ngram = rng.choice([2, 3])
-        alphabet = rng.choice(['ab', 'abc'])
-        g = rand_model(rng, ngram, alphabet, rng.choice([3, 4, 5]))
+    for mi in range(250 if tier == 'quick' else 1500):
+        ngram = rng.choice([2, 3]) if tier == 'quick' else rng.choice([2, 3, 3, 4])
+        alphabet = rng.choice(['ab', 'abc']) if tier == 'quick' or ngram == 4 else rng.choice(['ab', 'abc', 'abcd'])
+        g = rand_model(rng, ngram, alphabet, rng.choice([3, 4, 5]) if ngram < 4 else rng.choice([4, 5, 6]))
         spec = spec_level_sets(g)
         opt = Optimizer(max_length=4)
         order = list(range(0, 25))
@@ -121,7 +125,7 @@ def chk_enum(MarkovCracker, Optimizer, rng, tier):
 
 
 def chk_cuts(MarkovCracker, Optimizer, rng, tier, tmp):
-    for mi in range(20 if tier == 'quick' else 120):
+    for mi in range(20 if tier == 'quick' else 400):
         g = rand_model(rng, rng.choice([2, 3]), rng.choice(['ab', 'abc']), 4)
         for level in range(0, 8):
             full = run_level(MarkovCracker, g, level, Optimizer(max_length=4))
@@ -170,7 +174,8 @@ def train_omen(repo, words, ngram, alphabet_size, tmp, max_keyspace=None):
 
 
 WORDS = ['password', 'password', 'pass', 'pass', 'passw0rd', 'abcd', 'abcd', 'abce', 'hello1', 'hello1', 'hello1', 'love', 'love12',
-         'qwerty', 'qwerty', 'letmein', 'aaaa', 'aaaa', 'abab', 'xyzdef', 'abcdef', 'abcdef', 'abcdef', 'monkey', 'dragon1']
+         'qwerty', 'qwerty', 'letmein', 'aaaa', 'aaaa', 'abab', 'xyzdef', 'abcdef', 'abcdef', 'abcdef', 'monkey', 'dragon1',
+         'my dog', 'my dog', 'pass word', 'monkey ', 'i love u']
 
 
 def guesser_levels(repo, base, upto):
